@@ -110,7 +110,7 @@ func checkC06(w *World, r *Report) {
 	r.Rule("R06.1", "server success only after every admission check", 3)
 	r.Rule("R06.2", "negotiated version is a supported version the client listed", 1)
 	r.Rule("R06.3", "client accepts only 200 / 101", 2)
-	r.Rule("R06.4", "single buffered reader owns the inbound stream", 5)
+	r.Rule("R06.4", "single buffered reader owns the inbound stream", 6)
 
 	reqRead := w.Method("internal/socketace", "Request", "Read")
 	respRead := w.Method("internal/socketace", "Response", "Read")
@@ -448,6 +448,44 @@ func checkC06(w *World, r *Report) {
 	if nbuf == 0 {
 		r.Undecided("R06.4", "call:bufio.NewReader*", "-", "no buffered reader over a connection found (NewBufferedInputConnection changed?)")
 	}
+	// inside the handshake package no further buffering layer may be put over the inbound stream: the line/header
+	// parser must sit directly on the connection's one bufio.Reader
+	for fn := range allModuleFuncs(w, w.SSA()) {
+		f0 := fn
+		for f0.Parent() != nil {
+			f0 = f0.Parent()
+		}
+		if f0.Pkg == nil || f0.Pkg.Pkg.Path() != modPath+"/internal/socketace" {
+			continue
+		}
+		for _, c := range callsIn(fn) {
+			f := sCallee(c)
+			if f == nil || f.Pkg() == nil {
+				continue
+			}
+			if f.Pkg().Path() == "bufio" && (f.Name() == "NewReader" || f.Name() == "NewReaderSize" || f.Name() == "NewScanner" || f.Name() == "NewReadWriter") {
+				r.Violate("R06.4", "call:bufio."+f.Name()+"@"+ssaFuncKey(fn), w.Pos(c.Pos()), "the handshake code creates another buffered reader: whatever it reads ahead beyond the current header block (the next handshake message, TLS or multiplexer bytes coalesced into the same read) is thrown away with it, so the outcome depends on how the byte stream is segmented")
+			}
+			if f.Pkg().Path() == "net/textproto" && f.Name() == "NewReader" {
+				key := "call:textproto.NewReader@" + ssaFuncKey(fn)
+				okr := false
+				for _, root := range provenance(c.Common().Args[0], provOpts{}) {
+					if p, isParam := root.(*ssa.Parameter); isParam {
+						if pt, ok := p.Type().(*types.Pointer); ok {
+							if n, ok := pt.Elem().(*types.Named); ok && n.Obj().Pkg() != nil && n.Obj().Pkg().Path() == "bufio" && n.Obj().Name() == "Reader" {
+								okr = true
+							}
+						}
+					}
+					if fa := asFieldAddr(root); fa != nil && bicNamed(w) != nil && recvIs(fa, bicNamed(w)) {
+						okr = true
+					}
+				}
+				r.Check(okr, "R06.4", key, w.Pos(c.Pos()), "the header parser reads directly from the connection's single bufio.Reader", "the header parser is not fed by the connection's single bufio.Reader (bytes read ahead are lost to the next handshake step)")
+			}
+		}
+	}
+
 	// callers of Request.Read / Response.Read pass the BufferedInputConnection's Reader field
 	bic := w.Named("internal/streams", "BufferedInputConnection")
 	for fn := range allModuleFuncs(w, w.SSA()) {
@@ -468,3 +506,5 @@ func checkC06(w *World, r *Report) {
 		}
 	}
 }
+
+func bicNamed(w *World) *types.Named { return w.Named("internal/streams", "BufferedInputConnection") }
